@@ -119,8 +119,13 @@ func FileUtilsRead(file *os.File, offset int64) (*RecordHead, *RecordBody, error
 		return nil, nil, err
 	}
 
+	// A record whose write was interrupted (the process died in the middle of it) is shorter than its head says, or its
+	// body does not match the checksum in its head. io.ReadFull tells a clean end of file (io.EOF) from a short record
 	heaBuf := make([]byte, RecordHeadLength)
-	_, err = file.Read(heaBuf)
+	_, err = io.ReadFull(file, heaBuf)
+	if err == io.ErrUnexpectedEOF {
+		return nil, nil, ErrRecordTorn
+	}
 	if err != nil {
 		return nil, nil, err
 	}
@@ -135,10 +140,21 @@ func FileUtilsRead(file *os.File, offset int64) (*RecordHead, *RecordBody, error
 		return nil, nil, err
 	}
 
-	bodyBuf := make([]byte, head.Len)
-	_, err = file.Read(bodyBuf)
+	fileInfo, err := file.Stat()
 	if err != nil {
 		return nil, nil, err
+	}
+	if int64(head.Len) > fileInfo.Size()-offset-int64(RecordHeadLength) {
+		return nil, nil, ErrRecordTorn
+	}
+
+	bodyBuf := make([]byte, head.Len)
+	_, err = io.ReadFull(file, bodyBuf)
+	if err != nil {
+		return nil, nil, err
+	}
+	if CheckSum(bodyBuf) != head.Crc {
+		return nil, nil, ErrRecordTorn
 	}
 
 	var body RecordBody
